@@ -23,7 +23,7 @@ const (
 	RetErr    RetKind = iota // func(...) error                -> Go.R Unit
 	RetValErr                // func(...) (T, error)            -> Go.R T
 	RetVal                   // func(...) T                     -> T
-	RetHandler               // func(w, r, ...) (http handler)  -> List Write (the responses written, in order)
+	RetWrites               // func(w, r, ...) (http handler)  -> List Write (the responses written, in order)
 )
 
 // OutParam: the Go callee writes through a pointer argument; its Lean twin returns the new value.
@@ -615,7 +615,7 @@ func (t *tr) ret(r *ast.ReturnStmt) string {
 
 func (t *tr) ret0(r *ast.ReturnStmt) string {
 	switch t.spec.Ret {
-	case RetHandler:
+	case RetWrites:
 		if len(r.Results) != 0 {
 			return t.bad("return with values in a handler", r)
 		}
@@ -784,7 +784,7 @@ func (t *tr) block(stmts []ast.Stmt, k cont) string {
 				return rest()
 			}
 			// handler mode: a call that writes to the ResponseWriter; the handler goes on afterwards
-			if t.spec.Ret == RetHandler && hasArgW(c) {
+			if t.spec.Ret == RetWrites && hasArgW(c) {
 				return "(" + t.writeCall(c) + " ++\n" + t.pad() + rest() + ")"
 			}
 			// mutator method on a model value: recv.SetX(a)  ->  let recv := recv.SetX a
@@ -876,7 +876,7 @@ func (t *tr) block(stmts []ast.Stmt, k cont) string {
 				t.errInScope = saved
 				t.indent--
 				// handler mode: err := F(w, ...) writes a response (on success) or reports an error
-				if wc, ok := x.Rhs[0].(*ast.CallExpr); ok && t.spec.Ret == RetHandler && hasArgW(wc) {
+				if wc, ok := x.Rhs[0].(*ast.CallExpr); ok && t.spec.Ret == RetWrites && hasArgW(wc) {
 					return "(match " + t.writeCall(wc) + " with\n" + t.pad() + "| .error err => " + errBranch + "\n" + t.pad() + "| .ok ws_ =>\n" + t.pad() + "(ws_ ++ " + cont() + "))"
 				}
 				return "(match " + t.expr(x.Rhs[0]) + " with\n" + t.pad() + "| .error err => " + errBranch + "\n" + t.pad() + "| .ok " + t.okPattern(x.Rhs[0], "_") + " =>\n" + t.pad() + t.takePost() + cont() + ")"
@@ -1041,13 +1041,13 @@ func (t *tr) switchStmt(s *ast.SwitchStmt, cont cont) string {
 func translateFunc(fset *token.FileSet, fd *ast.FuncDecl, spec *FuncSpec) (string, []string) {
 	t := &tr{spec: spec, fset: fset, indent: 1}
 	var k0 cont
-	if spec.Ret == RetHandler {
+	if spec.Ret == RetWrites {
 		k0 = func() string { return "[]" } // a handler may fall off its end
 	}
 	body := t.block(fd.Body.List, k0)
 	var rt string
 	switch spec.Ret {
-	case RetHandler:
+	case RetWrites:
 		rt = "List Write"
 	case RetErr:
 		rt = "Go.R Unit"
